@@ -497,12 +497,18 @@ class ParseRig:
 		from rogw.tranp.app.app import App
 		return App(self._defs()).resolve(self._SyntaxParser)
 
-	def raw_outcome(self, v: Any) -> str:
-		"""what `parser.parse(self.__source_provider(module_path))` does, observed on lark itself"""
+	def loaded_text(self, mod: str) -> str:
+		"""the text the parser hands to lark: through the real `__load_source` when the tree has it, else the provider's text"""
+		f = getattr(self.parser, '_SyntaxParserOfLark__load_source', None)
+		return f(mod) if f is not None else self.table[mod]
+
+	def raw_outcome(self, mod: str) -> str:
+		"""what `parser.parse(<loaded source>)` does, observed on lark itself"""
+		v = self.table[mod]
 		if isinstance(v, BaseException):
 			return exc_spec(v)
 		try:
-			self.lark_parser.parse(v)
+			self.lark_parser.parse(self.loaded_text(mod))
 			return 'ok'
 		except BaseException as e:  # noqa: BLE001
 			return exc_spec(e)
@@ -532,13 +538,19 @@ def stream_parse(ctx: Ctx) -> Stream:
 
 	def one(kind: str, v: Any, branch: str, again: Any = None) -> None:
 		mod = rig.new_module(v, branch)
-		ops = [f'parse\t{branch}\t0\t{rig.raw_outcome(v)}']
+		ops = [f'parse\t{branch}\t0\t{rig.raw_outcome(mod)}']
 		caught = rig.load(mod)
 		real = [outcome_of(caught)]
+		if isinstance(v, str):
+			ops.append(f'loadsrc\t{hx(v)}')
+			try:
+				real.append(hx(rig.loaded_text(mod)))
+			except BaseException as e:  # noqa: BLE001
+				real.append(outcome_of(e))
 		if again is not None and branch == 'disk' and caught is None:
 			# second load of a module whose tree is now cached: the source is not parsed at all (the provider would raise)
 			rig.table[mod] = again
-			ops.append(f'parse\tdisk\t1\t{rig.raw_outcome(again)}')
+			ops.append(f'parse\tdisk\t1\t{rig.raw_outcome(mod)}')
 			real.append(outcome_of(rig.load(mod, rig.new_parser())))
 		cases.append(({'kind': kind, 'branch': branch}, ops, real))
 
